@@ -5,6 +5,26 @@ V = os.path.dirname(os.path.dirname(os.path.abspath(__file__)))
 props = {json.loads(l)["id"]: json.loads(l) for l in open(os.path.join(V, "properties.jsonl"))}
 
 CLAIMED = {
+ "C01": dict(engine="build", level="model_checking", design="DESIGN.md §4 C01/C02/C03/C13/C14",
+   text='TLC checks Build.tla (records, stamps, run-local changed flags, every persistent effect its own step) composed with BuildMon.tla for all histories of bounded length over project shapes (chain, generated file, diamond, always, reshape); the design-level staleness of the original stamping (Stamp = env) is reproduced by TLC and the repaired design (fresh run ID per execution) is model-checked. The real dawn is driven through TLC-generated histories and harness histories (atom kinds x value classes, partial builds, REPL sessions, directory renames, failing bodies, process deaths) with a fresh Load+Run per step; the monitor requires every target in the closure of a successful build to have executed since its inputs last changed, and outputs to equal a from-scratch build.',
+   note="process death = os.Exit at a named hook (written data survives); os.Rename atomic; bodies deterministic; bounded histories (TLC: <=3 edits, <=4 builds, 1 crash, 1 failure; harness: <=12 steps).",
+   technique="TLA+ design spec + TLC exhaustive check; TLC-generated histories replayed on the real dawn (child processes for crashes); real traces evaluated by a TLA+ monitor; spec-predicted executed sets compared with real ones"),
+ "C02": dict(engine="build", level="model_checking", design="DESIGN.md §4 C01/C02/C03/C13/C14",
+   text='Same machinery; the monitor flags every target body execution (logged by the body itself) in a freshly loaded, non-forced build that no input change, failure, interruption or regenerated source justifies: rebuilds of unchanged trees, touches, same-content rewrites, comment/docstring edits, edits outside the closure.',
+   note="process death = os.Exit at a named hook (written data survives); os.Rename atomic; bodies deterministic; bounded histories (TLC: <=3 edits, <=4 builds, 1 crash, 1 failure; harness: <=12 steps).",
+   technique="TLA+ design spec + TLC exhaustive check; TLC-generated histories replayed on the real dawn (child processes for crashes); real traces evaluated by a TLA+ monitor; spec-predicted executed sets compared with real ones"),
+ "C03": dict(engine="build", level="model_checking", design="DESIGN.md §4 C01/C02/C03/C13/C14",
+   text='Build.tla has a Crash action enabled between any two persistent effects (body, temp write, rename) and failing bodies; on the real code the build runs in a child process that exits at every named crash point x label x hit (before/inside/after bodies, after mkdir/create/encode/close of the record write, after the save, during the index write); the monitor requires the state to stay loadable, staleness never to be remembered, and outputs to converge to a from-scratch build.',
+   note="process death = os.Exit at a named hook (written data survives); os.Rename atomic; bodies deterministic; bounded histories (TLC: <=3 edits, <=4 builds, 1 crash, 1 failure; harness: <=12 steps).",
+   technique="TLA+ design spec + TLC exhaustive check; TLC-generated histories replayed on the real dawn (child processes for crashes); real traces evaluated by a TLA+ monitor; spec-predicted executed sets compared with real ones"),
+ "C13": dict(engine="build", level="model_checking", design="DESIGN.md §4 C01/C02/C03/C13/C14",
+   text='Dry runs are actions of Build.tla; on the real code dry runs are inserted in histories (also under a transient I/O fault): no body may run, digests of .dawn/build and of the tree must be unchanged, the evaluating set must equal that of the following real build (up to targets downstream of a failure), and twin histories with/without the dry runs must execute the same targets.',
+   note="process death = os.Exit at a named hook (written data survives); os.Rename atomic; bodies deterministic; bounded histories (TLC: <=3 edits, <=4 builds, 1 crash, 1 failure; harness: <=12 steps).",
+   technique="TLA+ design spec + TLC exhaustive check; TLC-generated histories replayed on the real dawn (child processes for crashes); real traces evaluated by a TLA+ monitor; spec-predicted executed sets compared with real ones"),
+ "C14": dict(engine="build", level="model_checking", design="DESIGN.md §4 C01/C02/C03/C13/C14",
+   text="Collections are part of Build.tla's Load action (with reshaped projects); on the real code GC runs after fresh and index-only loads: records of live labels must be byte-identical, records of removed labels and stray temporaries gone, nothing outside .dawn/build touched, and twin histories with/without collections must execute the same targets.",
+   note="process death = os.Exit at a named hook (written data survives); os.Rename atomic; bodies deterministic; bounded histories (TLC: <=3 edits, <=4 builds, 1 crash, 1 failure; harness: <=12 steps).",
+   technique="TLA+ design spec + TLC exhaustive check; TLC-generated histories replayed on the real dawn (child processes for crashes); real traces evaluated by a TLA+ monitor; spec-predicted executed sets compared with real ones"),
  "C04": dict(engine="runner", level="model_checking", design="DESIGN.md §4 C04/C05/C09",
    text="TLC checks the design spec Runner.tla composed with the monitor RunnerMon.tla exhaustively over all small dependency graphs (every interleaving, limits 1..3); the real runner.Run is then driven by TLC-generated, random, PCT and free-running schedules and every real execution is evaluated by the same TLA+ monitor (once-only, dependencies ended before return, faithful results, build result = root result).",
    note="Go sync/atomic/synctest trusted; interleavings below hook grain only by stress; bounded graphs (exhaustive <=3 labels, random <=8, wide <=16).",
@@ -56,6 +76,8 @@ manifest = {
     "engines": [
         {"name": "runner", "path": "tools/fam_runner.py", "serves_properties": ["C04", "C05", "C09"],
          "kind_free_text": "TLC (design check, schedule generation, monitor evaluation, trace validation) + Go overlay harness with synctest controlled scheduler"},
+        {"name": "build", "path": "tools/fam_build.py", "serves_properties": ["C01", "C02", "C03", "C13", "C14"],
+         "kind_free_text": "TLC + Go overlay harness in package dawn materialising project shapes, fresh Load+Run per step, child processes for crash injection"},
         {"name": "modload", "path": "tools/fam_modload.py", "serves_properties": ["C06"],
          "kind_free_text": "TLC + Go overlay harness in package dawn driving dawn.Load on generated project trees"},
         {"name": "cache", "path": "tools/fam_cache.py", "serves_properties": ["C20"],
